@@ -17,6 +17,7 @@ the clockwise rotation by Rotate that sends the MediaBox to a box with origin
 from __future__ import annotations
 
 import io
+import os
 import itertools
 import random
 from typing import Any, Dict, List, Optional, Set, Tuple
@@ -52,9 +53,11 @@ ROTATES = [0, 90, 180, 270, -90, -270, 360, 450, 810, -450, -180, 720]
 def minimums(tier: str) -> Dict[str, int]:
     if tier == "quick":
         return {"evaluations": 1500, "distinct": 700, "pages_checked": 6000, "glyphs_checked": 20000, "selections_checked": 600,
-                "cyclic_docs": 60, "inherited_attr_pages": 2000, "seen:rotate_values": 10, "rotation_option_pages": 1500}
+                "cyclic_docs": 60, "inherited_attr_pages": 2000, "seen:rotate_values": 10, "rotation_option_pages": 1500,
+                "tool_selections:dumppdf": 250, "tool_selections:pdf2txt": 250}
     return {"evaluations": 30000, "distinct": 15000, "pages_checked": 150000, "glyphs_checked": 500000, "selections_checked": 12000,
-            "cyclic_docs": 1500, "inherited_attr_pages": 40000, "seen:rotate_values": 12, "rotation_option_pages": 30000}
+            "cyclic_docs": 1500, "inherited_attr_pages": 40000, "seen:rotate_values": 12, "rotation_option_pages": 30000,
+            "tool_selections:dumppdf": 2000, "tool_selections:pdf2txt": 2000}
 
 
 def shards(tier: str, seed: int) -> List[Dict[str, Any]]:
@@ -462,11 +465,77 @@ def check_selection(rec, data: bytes, n: int, objids: List[int], page_numbers: O
     return fails
 
 
+_TOOLS: Dict[str, Any] = {}
+
+
+def _tool(name: str) -> Any:
+    """tools/<name>.py of the tree under test, imported by path (the tools are scripts, not a package)."""
+    import importlib.util
+
+    from vf import REPO
+
+    if name not in _TOOLS:
+        spec = importlib.util.spec_from_file_location("vf_c04_tool_" + name, os.path.join(REPO, "tools", name + ".py"))
+        mod = importlib.util.module_from_spec(spec)    # type: ignore[arg-type]
+        spec.loader.exec_module(mod)                    # type: ignore[union-attr]
+        _TOOLS[name] = mod
+    return _TOOLS[name]
+
+
+def check_selection_tools(rec, data: bytes, n: int, sel: List[int], maxpages: int, workdir: str) -> List[Tuple[str, str]]:
+    """The same selection through the repository's command-line tools (one-based page numbers): pdf2txt.py -p / --pagenos /
+    --page-numbers / -m and dumppdf.py -p / --pagenos / --page-numbers.  Page i of the flat document shows 'pg<i>q' and has
+    MediaBox width 200+i."""
+    import contextlib
+    import re
+
+    fails: List[Tuple[str, str]] = []
+    path = os.path.join(workdir, "in.pdf")
+    outp = os.path.join(workdir, "out.txt")
+    with open(path, "wb") as f:
+        f.write(data)
+    one = [i + 1 for i in sel]
+    spellings = [("-p", [",".join(map(str, one))]), ("--pagenos", [",".join(map(str, one))]), ("--page-numbers", [str(x) for x in one])]
+    for opt, vals in spellings:
+        what = "%s %s" % (opt, " ".join(vals))
+        # pdf2txt
+        exp = [i for i in range(n) if i in sel and (maxpages == 0 or i < maxpages)]
+        args = [path, "-o", outp, opt] + vals + (["-m", str(maxpages)] if maxpages else [])
+        try:
+            with contextlib.redirect_stdout(io.StringIO()):
+                _tool("pdf2txt").main(args)
+            with open(outp, encoding="utf-8") as f:
+                parts = f.read().split("\f")
+            got = [p.strip() for p in parts if p.strip()]
+            if got != ["pg%dq" % i for i in exp]:
+                fails.append(("selection:pdf2txt:" + opt, "pdf2txt %s -m %d on %d pages gives %s, expected pages %s" % (what, maxpages, n, got[:8], exp)))
+        except (Exception, SystemExit) as e:  # noqa: BLE001
+            fails.append(("selection:pdf2txt:exception:%s" % type(e).__name__, "pdf2txt %s: %s: %s" % (what, type(e).__name__, e)))
+        rec.count("tool_selections:pdf2txt")
+        # dumppdf (no maxpages option)
+        exp = [i for i in range(n) if i in sel]
+        try:
+            with contextlib.redirect_stdout(io.StringIO()):
+                _tool("dumppdf").main([path, "-o", outp, opt] + vals)
+            with open(outp, encoding="utf-8") as f:
+                text = f.read()
+            widths = []
+            for chunk in text.split("<key>MediaBox</key>")[1:]:
+                nums = re.findall(r"<number>(-?\d+)</number>", chunk)
+                widths.append(int(nums[2]) - 200)
+            if widths != exp:
+                fails.append(("selection:dumppdf:" + opt, "dumppdf %s on %d pages dumps pages %s, expected %s" % (what, n, widths, exp)))
+        except (Exception, SystemExit) as e:  # noqa: BLE001
+            fails.append(("selection:dumppdf:exception:%s" % type(e).__name__, "dumppdf %s: %s: %s" % (what, type(e).__name__, e)))
+        rec.count("tool_selections:dumppdf")
+    return fails
+
+
 def build_flat_doc(n: int) -> Tuple[bytes, List[int]]:
     from vf.gen.pdfw import font_type1, page_doc
 
     pages = [{"content": b"BT /F1 12 Tf 50 100 Td (pg%dq) Tj ET" % i, "resources": {"Font": {"F1": font_type1()}},
-              "mediabox": [0, 0, 200, 200]} for i in range(n)]
+              "mediabox": [0, 0, 200 + i, 200]} for i in range(n)]
     doc = page_doc(pages)
     data = doc.build()
     kids = doc.objs[2]["Kids"]
@@ -576,6 +645,15 @@ def run_shard(spec: Dict[str, Any], rec) -> None:
                     rec.fail(key, {"n": n, "page_numbers": sorted(pn) if pn is not None else None, "maxpages": mp}, detail)
                 proper = pn is not None or mp != 0
                 rec.case(chash("sel", n, sorted(pn) if pn is not None else None, mp), proper)
+            # a sample of the same selections through the command-line tools
+            import tempfile
+
+            with tempfile.TemporaryDirectory(prefix="vf04-") as wd:
+                tcases = [(sorted(x for x in pn if x < n), mp) for pn, mp in cases if pn is not None and any(x < n for x in pn)]
+                for sel, mp in rng.sample(tcases, min(len(tcases), 6)):
+                    for key, detail in check_selection_tools(rec, data, n, sel, mp, wd):
+                        rec.fail(key, {"n": n, "tool_selection": sel, "maxpages": mp}, detail)
+                    rec.case(chash("toolsel", n, sel, mp), True)
 
 
 class _NullRec:
@@ -591,6 +669,12 @@ class _NullRec:
 
 def replay(case: Dict[str, Any]) -> List[Tuple[str, str]]:
     rec = _NullRec()
+    if "tool_selection" in case:
+        import tempfile
+
+        data, _ = build_flat_doc(case["n"])
+        with tempfile.TemporaryDirectory(prefix="vf04-") as wd:
+            return check_selection_tools(rec, data, case["n"], case["tool_selection"], case["maxpages"], wd)
     if "seed_str" in case:
         kind = case["kind"]
         root, ref_pages, data, objid, depth = make_tree_case(case["seed_str"], case.get("tier", "quick"), cyclic=(kind == "cyclic"), revbox=(kind == "revbox"))
